@@ -1164,3 +1164,117 @@ func TestVerifC13BinMeta(t *testing.T) {
 		},
 	})
 }
+
+// ---- binary metadata end to end: a response header or trailer with a -bin value that is not unpadded base64,
+// sent by the real reference server, is flagged by the real reference client for every kind of RPC and however the
+// call ends (to completion, or cancelled by the client after the first response) ----
+
+type vfC13BinE2E struct {
+	Protocol int32  `json:"protocol"`
+	Stream   string `json:"stream"` // unary, client-stream, server-stream, bidi
+	Where    string `json:"where"`  // headers, trailers, none
+	Bad      string `json:"bad"`    // the offending value
+	Cancel   bool   `json:"cancel"` // server-stream / bidi: cancelled after the first response
+	H1       bool   `json:"h1"`
+}
+
+func vfC13BinE2ECheck(c vfC13BinE2E) error {
+	version := conformancev1.HTTPVersion_HTTP_VERSION_2
+	if c.H1 && c.Protocol != 2 && c.Stream != "bidi" {
+		version = conformancev1.HTTPVersion_HTTP_VERSION_1
+	}
+	srv, err := vfE2EServer(version)
+	if err != nil {
+		return nil
+	}
+	vfRecMu.Lock()
+	vfRecSeq++
+	name := fmt.Sprintf("verif/c13bin/%d", vfRecSeq)
+	vfRecMu.Unlock()
+	hdrs := []*conformancev1.Header{{Name: "X-Resp-Header", Value: []string{"h1"}}, {Name: "x-good-bin", Value: []string{"AAEC"}}}
+	trls := []*conformancev1.Header{{Name: "X-Resp-Trailer", Value: []string{"t1"}}, {Name: "x-good-trailer-bin", Value: []string{"AAEC", "/w"}}}
+	switch c.Where {
+	case "headers":
+		hdrs = append(hdrs, &conformancev1.Header{Name: "x-custom-bin", Value: []string{"AAEC", c.Bad}})
+	case "trailers":
+		trls = append(trls, &conformancev1.Header{Name: "x-custom-bin", Value: []string{c.Bad}})
+	}
+	viaHost, viaPort := vfVia(srv.Host, srv.Port)
+	req := &conformancev1.ClientCompatRequest{
+		TestName: name, HttpVersion: version, Protocol: conformancev1.Protocol(c.Protocol), Codec: conformancev1.Codec_CODEC_PROTO,
+		Compression: conformancev1.Compression_COMPRESSION_IDENTITY, Host: viaHost, Port: viaPort,
+		Service:        proto.String("connectrpc.conformance.v1.ConformanceService"),
+		RequestHeaders: []*conformancev1.Header{{Name: "X-Test-Case-Name", Value: []string{name}}},
+	}
+	unaryDef := &conformancev1.UnaryResponseDefinition{ResponseHeaders: hdrs, ResponseTrailers: trls, Response: &conformancev1.UnaryResponseDefinition_ResponseData{ResponseData: []byte("ok")}}
+	streamDef := &conformancev1.StreamResponseDefinition{ResponseHeaders: hdrs, ResponseTrailers: trls, ResponseData: [][]byte{[]byte("r0"), []byte("r1"), []byte("r2")}}
+	cancelled := false
+	switch c.Stream {
+	case "unary":
+		req.Method, req.StreamType = proto.String("Unary"), conformancev1.StreamType_STREAM_TYPE_UNARY
+		req.RequestMessages, _ = vfAny(&conformancev1.UnaryRequest{ResponseDefinition: unaryDef})
+	case "client-stream":
+		req.Method, req.StreamType = proto.String("ClientStream"), conformancev1.StreamType_STREAM_TYPE_CLIENT_STREAM
+		req.RequestMessages, _ = vfAny(&conformancev1.ClientStreamRequest{ResponseDefinition: unaryDef})
+	case "server-stream":
+		req.Method, req.StreamType = proto.String("ServerStream"), conformancev1.StreamType_STREAM_TYPE_SERVER_STREAM
+		if c.Cancel {
+			streamDef.ResponseDelayMs = 300
+			req.Cancel = &conformancev1.ClientCompatRequest_Cancel{CancelTiming: &conformancev1.ClientCompatRequest_Cancel_AfterNumResponses{AfterNumResponses: 1}}
+			cancelled = true
+		}
+		req.RequestMessages, _ = vfAny(&conformancev1.ServerStreamRequest{ResponseDefinition: streamDef})
+	default:
+		req.Method, req.StreamType = proto.String("BidiStream"), conformancev1.StreamType_STREAM_TYPE_HALF_DUPLEX_BIDI_STREAM
+		if c.Cancel {
+			streamDef.ResponseDelayMs = 300
+			req.Cancel = &conformancev1.ClientCompatRequest_Cancel{CancelTiming: &conformancev1.ClientCompatRequest_Cancel_AfterNumResponses{AfterNumResponses: 1}}
+			cancelled = true
+		}
+		req.RequestMessages, _ = vfAny(&conformancev1.BidiStreamRequest{ResponseDefinition: streamDef})
+	}
+	resp, rerr := vfRunClient(req)
+	if rerr != nil {
+		return verifkit.Violf("bin-e2e-client-failed", "reference client failed: %v", rerr)
+	}
+	result := resp.GetResponse()
+	if result == nil {
+		return verifkit.Violf("bin-e2e-client-failed", "reference client reported: %v", resp.GetError())
+	}
+	what := fmt.Sprintf("%v/%s (cancelled after the first response: %v, %v)", conformancev1.Protocol(c.Protocol), c.Stream, cancelled, version)
+	flagged := false
+	for _, f := range result.Feedback {
+		if strings.Contains(strings.ToLower(f), "x-custom-bin") {
+			flagged = true
+		}
+	}
+	switch {
+	case c.Where == "none" && len(result.Feedback) > 0 && !cancelled:
+		return verifkit.Violf("bin-e2e-wellformed-flagged", "%s: well-formed binary metadata drew feedback %q", what, result.Feedback)
+	case c.Where == "headers" && !flagged:
+		return verifkit.Violf("bin-e2e-malformed-accepted:headers", "%s: response header x-custom-bin has the value %q but the feedback is %q", what, c.Bad, result.Feedback)
+	case c.Where == "trailers" && !cancelled && !flagged:
+		return verifkit.Violf("bin-e2e-malformed-accepted:trailers", "%s: response trailer x-custom-bin has the value %q but the feedback is %q", what, c.Bad, result.Feedback)
+	}
+	return nil
+}
+
+func TestVerifC13BinE2E(t *testing.T) {
+	defer verifsrv.StopCached()
+	verifkit.Run(t, "C13BinE2E", verifkit.Spec[vfC13BinE2E]{
+		Gen: func(t *rapid.T) vfC13BinE2E {
+			c := vfC13BinE2E{Protocol: int32(rapid.IntRange(1, 3).Draw(t, "protocol")),
+				Stream: rapid.SampledFrom([]string{"unary", "client-stream", "server-stream", "bidi", "bidi"}).Draw(t, "stream"),
+				Where:  rapid.SampledFrom([]string{"headers", "trailers", "trailers", "none"}).Draw(t, "where"),
+				Bad:    rapid.SampledFrom([]string{"not base64!", "AAE=", "a"}).Draw(t, "bad"), H1: rapid.Bool().Draw(t, "h1")}
+			if c.Stream == "server-stream" || c.Stream == "bidi" {
+				c.Cancel = rapid.IntRange(0, 2).Draw(t, "cancel") == 0
+			}
+			return c
+		},
+		Check: vfC13BinE2ECheck,
+		Classify: func(c vfC13BinE2E) ([]string, bool) {
+			return []string{conformancev1.Protocol(c.Protocol).String(), c.Stream, "bad-" + c.Where, fmt.Sprintf("cancelled:%v", c.Cancel)}, c.Where != "none"
+		},
+	})
+}
